@@ -33,6 +33,7 @@ structure Sub where
   got : List Nat := []       -- values received (and acknowledged), in order
   cur : Nat := 0             -- the value just received (pc = got)
   since : Nat := 0           -- ghost: number of Sends that had returned when the subscription was made
+  nextSeq : Nat := 0         -- ghost: position (1-based) in the global order `log` of the next message this subscription is to see
 deriving DecidableEq, Repr
 
 inductive SPc
@@ -107,7 +108,7 @@ def step (s : St) : Act → Option St
   | .subInc t =>
     let u := s.subs t
     if u.pc = .subRlocked ∧ s.subsCount < MAXR then
-      some { setSub s t { u with pc := .subAdded, since := s.returned } with subsCount := s.subsCount + 1 }
+      some { setSub s t { u with pc := .subAdded, since := s.returned, nextSeq := s.log.length + 1 } with subsCount := s.subsCount + 1 }
     else none
   | .subUnlock t =>
     let u := s.subs t
@@ -117,7 +118,7 @@ def step (s : St) : Act → Option St
     let x := s.senders a
     let u := s.subs t
     if x.pc = .sending ∧ x.k < x.armedN ∧ u.pc = .idle then
-      some { setSender (setSub s t { u with pc := .got, cur := x.val, owes := false }) a { x with k := x.k + 1 } with delivered := s.delivered + 1 }
+      some { setSender (setSub s t { u with pc := .got, cur := x.val, owes := false, nextSeq := s.log.length + 1 }) a { x with k := x.k + 1 } with delivered := s.delivered + 1 }
     else none
   | .consume t =>
     let u := s.subs t
